@@ -24,7 +24,11 @@ lazy_static! {
 pub fn eval_int(expression: Pairs<Rule>) -> i64 {
     PRATT_PARSER
         .map_primary(|primary| match primary.as_rule() {
-            Rule::num => primary.as_str().parse::<i64>().unwrap(),
+            // a literal that does not fit i64 (or uses an exponent) must not
+            // crash the shell: fall back to the saturating float conversion
+            Rule::num => primary.as_str().parse::<i64>().unwrap_or_else(|_| {
+                primary.as_str().parse::<f64>().unwrap_or(0.0) as i64
+            }),
             Rule::expr => eval_int(primary.into_inner()),
             _ => unreachable!(),
         })
